@@ -73,7 +73,9 @@ ObsRestore == /\ Ev.e = "restore"
               /\ stored' = [l \in Logs |-> Ev.stored[l]]
               /\ UNCHANGED <<last, ctr, hist, memo>> /\ i' = i + 1
 
-TraceNext == i <= Len(Trace) /\ (Reset \/ ObsUpdate \/ ObsGet \/ ObsGetLogs \/ ObsSkip \/ ObsRestore \/ ObsOdd \/ ObsFinal)
+\* an environment step of Witness.tla that only reads (a pass of the witness' own REST distributor): the model's state does not move
+ObsEnvStep == Ev.e = "envstep" /\ UNCHANGED <<stored, last, ctr, hist, memo>> /\ i' = i + 1
+TraceNext == i <= Len(Trace) /\ (Reset \/ ObsUpdate \/ ObsGet \/ ObsGetLogs \/ ObsSkip \/ ObsRestore \/ ObsOdd \/ ObsFinal \/ ObsEnvStep)
 TraceSpec == TraceInit /\ [][TraceNext]_tvars
 
 -----------------------------------------------------------------------------
@@ -191,6 +193,13 @@ Monitor ==
       [] Ev.e = "final"   -> MonFinal
       [] Ev.e = "get"     -> MonGet
       [] Ev.e = "getlogs" -> MonGetLogs
+      \* a reader inside the process leaves every byte of the store as it was: otherwise what was accepted is no longer what is held (C01, C04, C16),
+      \* a refusal-free step has had an effect (C03), and the next honest step may find a note it cannot open (C08)
+      [] Ev.e = "envstep" -> /\ Check("C01", "ReaderInsideTheProcessChangesNothing", Ev.unchanged)
+                             /\ Check("C03", "ReaderInsideTheProcessChangesNothing", Ev.unchanged)
+                             /\ Check("C04", "ReaderInsideTheProcessChangesNothing", Ev.unchanged)
+                             /\ Check("C08", "ReaderInsideTheProcessChangesNothing", Ev.unchanged)
+                             /\ Check("C16", "ReaderInsideTheProcessChangesNothing", Ev.unchanged)
       \* (a check of the harness itself: the replacement keeps tree and extension, and touches no other log)
       [] Ev.e = "restore" -> Check("ORACLE", "RestoreKeepsTheCheckpoint",
                                    \A l \in Logs : (stored[l] = None) = (Ev.stored[l] = None)
